@@ -25,6 +25,9 @@ func genC05(t *rapid.T) c05Scenario {
 	sc := sim.LoopScenario{Fan: fan, Loop: genLoop(t, false), TickMs: genTick(t), RpmPollMs: 1000, RpmWindow: 10,
 		Law: sim.RpmLaw{Theta: 0, Rpm: 1200}, Stop: sim.StopSpec{AtMs: -1}}
 	n := rapid.IntRange(20, 80).Draw(t, "n")
+	if fan.Kind == "cmd" {
+		n = 20 + n/10
+	}
 	cur := rapid.IntRange(0, 255).Draw(t, "cv0")
 	for i := 0; i < n; i++ {
 		if rapid.IntRange(0, 3).Draw(t, "chg") == 0 {
